@@ -25,13 +25,8 @@ def run(ctx, rep):
         if b.kind == "AssocFn" and b.item_name == "check_immutability" and (b.impl_self or "").endswith("DataReaderQos"):
             k += 1
             fc = FnCtx(b)
-            got = set()
-            for sb, ce in fc.ces.items():
-                c = cmp_norm(E.strip_casts(ce.expr))
-                if c and c[0] in ("Ne", "Eq"):
-                    for x in (c[1], c[2]):
-                        if x[0] == "param" and x[2]:
-                            got.add(x[2][0])
+            from rules.common import compared_param_fields
+            got = compared_param_fields(fc)
             rep.add("R21e", b.sname, "destination_order is immutable on an enabled reader", "destination_order" in got,
                     "DataReaderQos::check_immutability does not compare destination_order: set_qos can switch an enabled reader to BY_SOURCE_TIMESTAMP and later samples are sorted into a history that is not sorted", b.loc())
     rep.floor("R21e", k, 1, "DataReaderQos::check_immutability")
